@@ -82,6 +82,8 @@ func c09Targets(segs []string, maxSeg int) []string {
 	}
 	/* The canonical spellings of the shell endpoints and the root. */
 	out = append(out, "/", "/c", "/c?c2=h.example", "/i/x", "/o/x", "/io", "/io/", "/i/", "/o/", "/i", "/o", "/c/", "*")
+	/* /c with queries its handler cannot make sense of: still /c. */
+	out = append(out, "/c?x=%zz", "/c?%", "/c?a=1;b=2", "/c?c2=%zz", "/c?c2=")
 	/* The shell endpoints with other methods (a target written "METHOD /path"). */
 	for _, m := range []string{"POST", "PUT", "DELETE", "OPTIONS"} {
 		for _, t := range []string{"/c", "/i/x", "/o/x", "/io"} {
@@ -214,6 +216,9 @@ func c09Judge(r *ev.Result, c c09Case, res *hworld.Response, notices []opshell.C
 		if strings.HasPrefix(ct, "/c") && !bytes.HasPrefix(body, []byte("#!/bin/sh")) {
 			v("shell-endpoint-lost", "/c did not return a script")
 		}
+	}
+	if strings.HasPrefix(ct, "/c?") && (hasFile || 0 != nFile) {
+		v("shell-endpoint-shadowed", "a request for /c (with a query) was answered by the file handler")
 	}
 }
 
